@@ -24,6 +24,7 @@ let fl : float arith = {
   fpow = ( ** ); fexp = exp; flog = log; fcos = cos; fsqrt = sqrt;
   ftrunc = trunc_z;
   fisnan = Float.is_nan;
+  ffinite = Float.is_finite;
 }
 
 let hx (x : float) : string =
